@@ -3,7 +3,9 @@
    Property theorems only. *)
 From TV Require Import Model.ShapeGlue Spec.ShapeGlue Proofs.ShapeGlue.
 From TV Require Import Model.Buffer Spec.Buffer Proofs.Buffer Proofs.BufferOps Proofs.BufferNewOps Proofs.BufferAll Model.Recurse Proofs.Recurse.
-From TV Require Import Model.Engine Proofs.Engine.
+From TV Require Import Model.Engine Proofs.Engine Proofs.EngineForm Proofs.EngineProps Proofs.EnginePre.
+From TV Require Import Proofs.EngineReorder Proofs.EngineRound2 Proofs.EngineRecompose Proofs.EngineDecompose Proofs.EngineNormalize Proofs.EngineHide Proofs.EnginePipeline.
+From TV Require Import Proofs.EngineKeep Proofs.EngineEmc Proofs.EngineKeepMerge Proofs.EngineKeepDecompose Proofs.EngineKeepRecompose Proofs.EngineKeepStages Proofs.EngineAccount Proofs.EngineKeepOps Proofs.EnginePipelineAccount.
 
 (* --- part 1: rune accounting of shaping.Shape / countClusters --- *)
 
@@ -235,17 +237,40 @@ Example ensure_monotone_clusters_example :
   /\ (exists b', ensure_monotone_clusters true (mk [0; 2; 1; 3]) = Ok b' /\ cls (info b') = [0; 1; 1; 3]).
 Proof. cbv zeta. split; [reflexivity|]. split; eexists; (split; [vm_compute; reflexivity|reflexivity]). Qed.
 
+(* formClusters at MonotoneGraphemes, for EVERY buffer with the cursor at 0 and bsfHasNonASCII set: no glyph's unicode
+   props change and every continuation glyph ends in the cluster of the glyph before it (induction over the grapheme
+   iteration; mergeClusters keeps the equalities between neighbours and makes the merged range uniform) *)
+Theorem form_clusters_groups_uniform : forall e e', level (eb e) = 0 -> idx (eb e) = 0 -> sf_nonascii e = true ->
+  form_clusters e = Ok e' -> groups_uniform (info (eb e')) = true /\ map up (info (eb e')) = map up (info (eb e)).
+Proof. exact form_clusters_uniform. Qed.
+Print Assumptions form_clusters_groups_uniform.
+
+(* setUnicodeProps raises bsfHasNonASCII whenever it leaves a continuation glyph in the buffer (so formClusters may be
+   skipped when the flag is clear), for every buffer and all Unicode data whose general categories are numbers below 32
+   (generalCategory is a uint8 enumeration of 30 values in the Go code) *)
+Theorem set_unicode_props_flags_continuations : forall ugc udi umcc uextpict e, (forall u, 0 <= ugc u < 32) ->
+  sf_nonascii (set_unicode_props ugc udi umcc uextpict e) = false ->
+  Forall (fun g => is_cont g = false) (info (eb (set_unicode_props ugc udi umcc uextpict e))).
+Proof. exact set_unicode_props_nonascii. Qed.
+Print Assumptions set_unicode_props_flags_continuations.
+
+(* non-vacuity: base, mark, ZWJ, pictograph, base at MonotoneGraphemes: the three continuations join cluster 0 *)
+Example form_clusters_example :
+  let mk := fun c u p => mkGX c fl0 0 u 0 p 0 in
+  let e := mkE (mkB [mk 0 97 7; mk 1 769 (12 + 128 + 230 * 256); mk 2 8205 (1 + 32 + 256 + 128); mk 3 128512 (26 + 128); mk 4 98 7]
+                    [] 0 false 5 5 0 false false false) [] [] true false false false false false false false 4 0 0 in
+  exists e', form_clusters e = Ok e' /\ cls (info (eb e')) = [0; 0; 0; 0; 4] /\ groups_uniform (info (eb e')) = true.
+Proof. cbv zeta. eexists. split; [vm_compute; reflexivity|]. split; reflexivity. Qed.
+
 (* the stages of shape() before normalisation composed: setUnicodeProps; insertDottedCircle; formClusters;
-   ensureNativeDirection, for every text, direction, script direction, flags, font and Unicode data.
-   PARTIAL: full at cluster level MonotoneCharacters; at MonotoneGraphemes under the hypothesis that formClusters leaves
-   every continuation glyph in the cluster of its base (checked by the oracle of c01eng on every case, not proved);
-   otShapeNormalize itself (decompose / recompose rounds) is tied by correspondence and the oracle only, its reorder
-   round is covered by sort_preserves_wf *)
-Theorem pre_normalize_preserves_wf_partial : forall ugc udi umcc uextpict nominal lo hi horiz e, EWF lo hi e -> idx (eb e) = 0 ->
-  (level (eb e) = 1 \/ forall e2 e3, level (eb e2) = level (eb e) -> form_clusters e2 = Ok e3 -> groups_uniform (info (eb e3)) = true) ->
+   ensureNativeDirection, for every text, direction, script direction, flags, font and Unicode data (general categories
+   below 32), at BOTH monotone cluster levels (FULL since the second extension round: the fact about formClusters that was a
+   hypothesis is form_clusters_groups_uniform, and a buffer on which formClusters is skipped has no continuation glyph) *)
+Theorem pre_normalize_preserves_wf : forall ugc udi umcc uextpict nominal lo hi horiz e, (forall u, 0 <= ugc u < 32) ->
+  EWF lo hi e -> idx (eb e) = 0 -> level (eb e) = 0 \/ level (eb e) = 1 ->
   exists e', pre_normalize ugc udi umcc uextpict nominal horiz e = Ok e' /\ EWF lo hi e' /\ idx (eb e') = 0 /\ level (eb e') = level (eb e).
-Proof. exact pre_normalize_wf. Qed.
-Print Assumptions pre_normalize_preserves_wf_partial.
+Proof. exact pre_normalize_full. Qed.
+Print Assumptions pre_normalize_preserves_wf.
 
 (* non-vacuity: "mark, base, mark" added by AddRunes at MonotoneCharacters, Bot set, a font with U+25CC, RTL in a
    natively LTR script: the dotted circle is inserted with cluster 0 and the graphemes are reversed with their clusters merged *)
@@ -261,6 +286,370 @@ Example pre_normalize_example :
 Proof.
   cbv zeta. eexists. eexists. split; [vm_compute; reflexivity|]. split; [repeat split|]. split; [reflexivity|]. split; [reflexivity|].
   split; [vm_compute; reflexivity|]. repeat split.
+Qed.
+
+(* --- part 5: otShapeNormalize, hideDefaultIgnorables and the whole default pipeline (second extension round) ---
+   okf r P: r is OutOfFuel or Ok x with P x (never Panic).  OutOfFuel can only come from the recursion budget dfuel of
+   decompose (the Go recursion has no bound; a cyclic decomposition table would not terminate); it is excluded by the data
+   obligation decomp_wf sdecomp dfuel: some rank strictly decreases from ab to the first component of sdecomp ab and stays
+   below dfuel.  All loop fuels of the model (dcc_loop, vs_skip, vs_cluster, round1, round2, round3) are proved sufficient. *)
+
+(* first round (decompose: decomposeCurrentCharacter, handleVariationSelectorCluster, decomposeMultiCharCluster, the
+   short-circuit scan), for EVERY buffer with output in progress and the cursor on a glyph, every decomposition function,
+   cmap, variation-sequence table and mode flags: WF, the level, the length of Info and the direction are kept, the cursor
+   ends at the end of Info, the output is not empty; no index check and no explicit Panic is reachable *)
+Theorem normalize_decompose_round_preserves_wf :
+  forall ugc udi umcc uspace nominal variation sdecomp dfuel lo hi fuel count might always simple e,
+  (level (eb e) =? 2) = false -> WF lo hi (eb e) = true -> have_out (eb e) = true ->
+  count = zlen (info (eb e)) -> 0 <= idx (eb e) -> idx (eb e) < count -> (Z.to_nat (count - idx (eb e)) <= fuel)%nat ->
+  okf (round1 ugc udi umcc uspace nominal variation sdecomp dfuel fuel count might always simple e)
+      (fun r => WF lo hi (eb (fst r)) = true /\ level (eb (fst r)) = level (eb e) /\ have_out (eb (fst r)) = true
+                /\ zlen (info (eb (fst r))) = zlen (info (eb e)) /\ idx (eb (fst r)) = zlen (info (eb (fst r)))
+                /\ dir (fst r) = dir e /\ 0 < zlen (out (eb (fst r)))).
+Proof. exact round1_ok. Qed.
+Print Assumptions normalize_decompose_round_preserves_wf.
+
+(* reorderMarks of the Arabic and Hebrew shapers (and the default no-op), for every range inside a buffer without output:
+   WF, level, length and cursor kept; the explicit Panic branch (start <= i <= j) and the index checks are unreachable *)
+Theorem reorder_marks_preserves_wf : forall sreorder is_mcm lo hi b s en,
+  (level b =? 2) = false -> WF lo hi b = true -> have_out b = false -> 0 <= s -> s <= en -> en <= zlen (info b) ->
+  exists b', reorder_marks sreorder is_mcm b s en = Ok b'
+    /\ (WF lo hi b' = true /\ have_out b' = false /\ level b' = level b /\ zlen (info b') = zlen (info b)) /\ idx b' = idx b.
+Proof. exact reorder_marks_stable. Qed.
+Print Assumptions reorder_marks_preserves_wf.
+
+(* second round (the sort of every run of marks by modified combining class, at most 32 long, then reorderMarks) from any
+   position, and the CGJ pass *)
+Theorem normalize_reorder_round_preserves_wf : forall sreorder is_mcm lo hi fuel count b i,
+  (level b =? 2) = false -> WF lo hi b = true -> have_out b = false -> count = zlen (info b) -> 0 <= i ->
+  (Z.to_nat (count - i) <= fuel)%nat ->
+  exists b', round2 sreorder is_mcm fuel count b i = Ok b'
+    /\ (WF lo hi b' = true /\ have_out b' = false /\ level b' = level b /\ zlen (info b') = zlen (info b)) /\ idx b' = idx b.
+Proof. exact round2_ok. Qed.
+Print Assumptions normalize_reorder_round_preserves_wf.
+
+Theorem normalize_cgj_pass_preserves_wf : forall lo hi b,
+  (level b =? 2) = false -> WF lo hi b = true -> have_out b = false ->
+  exists b', cgj_pass b = Ok b'
+    /\ (WF lo hi b' = true /\ have_out b' = false /\ level b' = level b /\ zlen (info b') = zlen (info b)) /\ idx b' = idx b.
+Proof. exact cgj_pass_ok. Qed.
+Print Assumptions normalize_cgj_pass_preserves_wf.
+
+(* third round (recompose: nextGlyph, mergeOutClusters(starter, len(outInfo)), dropping the composed mark), for every
+   composition function and cmap, from every state with 0 <= starter < len(outInfo) *)
+Theorem normalize_recompose_round_preserves_wf : forall ugc udi umcc nominal scomp lo hi fuel count starter e,
+  (level (eb e) =? 2) = false -> WF lo hi (eb e) = true -> have_out (eb e) = true ->
+  count = zlen (info (eb e)) -> 0 <= starter -> starter < zlen (out (eb e)) ->
+  (Z.to_nat (count - idx (eb e)) <= fuel)%nat ->
+  exists e', round3 ugc udi umcc nominal scomp fuel count starter e = Ok e'
+    /\ WF lo hi (eb e') = true /\ level (eb e') = level (eb e) /\ have_out (eb e') = true
+    /\ zlen (info (eb e')) = zlen (info (eb e)) /\ idx (eb e') = Z.max (idx (eb e)) count /\ dir e' = dir e.
+Proof. exact round3_ok. Qed.
+Print Assumptions normalize_recompose_round_preserves_wf.
+
+(* otShapeNormalize as a whole never panics: for EVERY engine buffer satisfying EWF, every data and mode, the result is
+   OutOfFuel (decompose recursion budget only) or Ok with EWF, the level, cursor 0 and the direction *)
+Theorem ot_shape_normalize_no_panic :
+  forall ugc udi umcc uspace nominal variation sdecomp scomp smode sreorder is_mcm dfuel lo hi e, EWF lo hi e ->
+  okf (normalize ugc udi umcc uspace nominal variation sdecomp scomp smode sreorder is_mcm dfuel e)
+      (fun e' => EWF lo hi e' /\ level (eb e') = level (eb e) /\ idx (eb e') = 0 /\ dir e' = dir e).
+Proof. exact normalize_ok. Qed.
+Print Assumptions ot_shape_normalize_no_panic.
+
+(* ... and with a well-founded decomposition function it returns normally *)
+Theorem ot_shape_normalize_preserves_wf :
+  forall ugc udi umcc uspace nominal variation sdecomp scomp smode sreorder is_mcm dfuel lo hi e,
+  decomp_wf sdecomp dfuel -> EWF lo hi e ->
+  exists e', normalize ugc udi umcc uspace nominal variation sdecomp scomp smode sreorder is_mcm dfuel e = Ok e'
+    /\ (EWF lo hi e' /\ level (eb e') = level (eb e) /\ idx (eb e') = 0 /\ dir e' = dir e).
+Proof. exact normalize_total. Qed.
+Print Assumptions ot_shape_normalize_preserves_wf.
+
+(* non-vacuity: "a U+0301 (ccc 230) U+0323 (ccc 220) b", composed-diacritics mode, a font with every glyph: the two marks
+   are sorted by combining class (their clusters 1 and 2 are merged), U+0323 does not compose with a, U+0301 is not blocked
+   by it (220 < 230) and composes: U+00E1 U+0323 b with the clusters 0..2 merged.  The decomposing direction (decomposed
+   mode, no glyph for U+00E1): b U+00E1 U+0323 -> b a U+0323 U+0301, the three glyphs in cluster 1 *)
+Example normalize_example :
+  let ugc := fun r => if (r =? 769) || (r =? 803) then 12 else 7 in
+  let udi := fun _ : Z => false in
+  let umcc := fun r => if r =? 769 then 230 else if r =? 803 then 220 else 0 in
+  let sdecomp := fun r => if r =? 225 then Some (97, 769) else None in
+  let scomp := fun a b => if (a =? 97) && (b =? 769) then Some 225 else None in
+  let mk := fun c u p => mkGX c fl0 0 u 0 p 0 in
+  let mark := fun c => 12 + 128 + c * 256 in
+  let e := fun l => mkE (mkB l [] 0 false 4 4 0 false false false) [] [] true false false false false false false false 4 0 0 in
+  decomp_wf sdecomp 40
+  /\ EWF 0 4 (e [mk 0 97 7; mk 1 769 (mark 230); mk 2 803 (mark 220); mk 3 98 7])
+  /\ (exists e', normalize ugc udi umcc (fun _ => 0) (fun r => (r, true)) (fun _ _ => (0, false)) sdecomp scomp 2 0 (fun _ => false) 40
+                   (e [mk 0 97 7; mk 1 769 (mark 230); mk 2 803 (mark 220); mk 3 98 7]) = Ok e'
+        /\ map cp (info (eb e')) = [225; 803; 98] /\ cls (info (eb e')) = [0; 0; 3])
+  /\ (exists e', normalize ugc udi umcc (fun _ => 0) (fun r => (r, negb (r =? 225))) (fun _ _ => (0, false)) sdecomp scomp 1 0 (fun _ => false) 40
+                   (e [mk 0 98 7; mk 1 225 7; mk 2 803 (mark 220)]) = Ok e'
+        /\ map cp (info (eb e')) = [98; 97; 803; 769] /\ cls (info (eb e')) = [0; 1; 1; 1]).
+Proof.
+  cbv zeta. split.
+  { exists (fun u => if u =? 225 then 1%nat else 0%nat). split.
+    - intros ab a b H. destruct (Z.eqb_spec ab 225) as [->|N]; [|discriminate]. inversion H; subst. cbn. lia.
+    - intros u. destruct (u =? 225); lia. }
+  split; [repeat split|].
+  split; eexists; (split; [vm_compute; reflexivity|split; reflexivity]).
+Qed.
+
+(* otLayoutDeleteGlyphsInplace, for EVERY filter and every buffer between passes: returns normally, keeps WF, and the
+   cluster sequence of the result is a stutter-subsequence of the input's (every value that remains is a value of the input,
+   in order: a deleted glyph's cluster is merged into a neighbour, never invented) *)
+Theorem ot_delete_glyphs_inplace_preserves_wf : forall lo hi filt b,
+  (level b =? 2) = false -> WF lo hi b = true -> have_out b = false -> idx b = 0 ->
+  exists b', ot_delete_glyphs_inplace filt b = Ok b' /\ WF lo hi b' = true /\ level b' = level b /\ have_out b' = false /\ idx b' = 0
+    /\ ss (cls (info b)) (cls (info b')).
+Proof. exact ot_delete_glyphs_inplace_wf. Qed.
+Print Assumptions ot_delete_glyphs_inplace_preserves_wf.
+
+(* ... and while a glyph remains the smallest cluster value is kept (the rune accounting of countClusters relies on it) *)
+Theorem ot_delete_glyphs_inplace_keeps_min : forall filt b b',
+  (level b =? 2) = false -> have_out b = false -> idx b = 0 ->
+  ot_delete_glyphs_inplace filt b = Ok b' -> info b' <> [] -> lmin (cls (info b')) = lmin (cls (info b)).
+Proof. exact ot_delete_glyphs_inplace_min. Qed.
+Print Assumptions ot_delete_glyphs_inplace_keeps_min.
+
+(* hideDefaultIgnorables (both branches: the invisible glyph / deletion), for every font and flags *)
+Theorem hide_default_ignorables_preserves_wf : forall nominal lo hi e, EWF lo hi e -> idx (eb e) = 0 ->
+  exists e', hide_default_ignorables nominal e = Ok e' /\ EWF lo hi e' /\ level (eb e') = level (eb e) /\ idx (eb e') = 0 /\ dir e' = dir e.
+Proof. exact hide_default_ignorables_wf. Qed.
+Print Assumptions hide_default_ignorables_preserves_wf.
+
+Theorem hide_default_ignorables_keeps_clusters : forall nominal e e',
+  (level (eb e) =? 2) = false -> have_out (eb e) = false -> idx (eb e) = 0 ->
+  hide_default_ignorables nominal e = Ok e' ->
+  ss (cls (info (eb e))) (cls (info (eb e')))
+  /\ (info (eb e') <> [] -> lmin (cls (info (eb e'))) = lmin (cls (info (eb e)))).
+Proof. exact hide_default_ignorables_ss. Qed.
+Print Assumptions hide_default_ignorables_keeps_clusters.
+
+(* non-vacuity: ZWNJ (ignorable, cluster 0) before "a b", no space glyph in the font: the ZWNJ is deleted and its cluster is
+   merged forward (cluster 0 survives on "a") *)
+Example hide_default_ignorables_example :
+  let mk := fun c u p => mkGX c fl0 0 u 0 p 0 in
+  let e := mkE (mkB [mk 0 8204 (1 + 32 + 512); mk 1 97 7; mk 2 98 7] [] 0 false 3 3 0 false false false)
+               [] [] true true false false false false false false 4 0 0 in
+  EWF 0 3 e /\ exists e', hide_default_ignorables (fun _ => (0, false)) e = Ok e'
+    /\ map cp (info (eb e')) = [97; 98] /\ cls (info (eb e')) = [0; 2] /\ EWF 0 3 e'.
+Proof. cbv zeta. split; [repeat split|]. eexists. split; [vm_compute; reflexivity|]. repeat split. Qed.
+
+(* ensureMonotoneClusters is a safety net: for ANY buffer (clusters in arbitrary order, no well-formedness assumed, cluster
+   level other than Characters) it returns normally and leaves the clusters monotone in the order asked for (ascending
+   = non-decreasing), keeps the length, the cursor and the level, invents no cluster value and keeps the smallest one *)
+Theorem ensure_monotone_clusters_makes_monotone : forall asc b, (level b =? 2) = false -> 0 <= idx b ->
+  exists b', ensure_monotone_clusters asc b = Ok b'
+    /\ mono (negb asc) (cls (info b')) = true /\ zlen (info b') = zlen (info b)
+    /\ have_out b' = have_out b /\ idx b' = idx b /\ level b' = level b
+    /\ ((forall x, In x (cls (info b')) -> In x (cls (info b))) /\ (cls (info b') <> [] -> lmin (cls (info b')) = lmin (cls (info b)))).
+Proof. exact ensure_monotone_clusters_monotone_keeps. Qed.
+Print Assumptions ensure_monotone_clusters_makes_monotone.
+
+(* non-vacuity: a buffer out of order in both senses, both requests *)
+Example ensure_monotone_clusters_any_example :
+  let mk := fun l => mkB (map (fun c => mkG c fl0 0 65 1) l) [] 0 false 0 0 0 false false false in
+  (exists b', ensure_monotone_clusters true (mk [3; 1; 4; 1; 5; 2]) = Ok b' /\ cls (info b') = [1; 1; 1; 1; 2; 2])
+  /\ (exists b', ensure_monotone_clusters false (mk [3; 1; 4; 1; 5; 2]) = Ok b' /\ cls (info b') = [1; 1; 1; 1; 1; 1]).
+Proof. cbv zeta. split; eexists; (split; [vm_compute; reflexivity|reflexivity]). Qed.
+
+(* THE WHOLE DEFAULT PIPELINE, as far as clusters are concerned:
+     AddRunes -> setUnicodeProps -> insertDottedCircle -> formClusters -> ensureNativeDirection -> otShapeNormalize
+     -> any sequence os of the 30 modelled Buffer operations (standing for the application of GSUB / GPOS / morx lookups)
+        used under their preconditions and leaving the buffer between passes (ops_ok: pres_hold, ops_rng, at the end no
+        output in progress and the cursor at 0)
+     -> hideDefaultIgnorables -> ensureMonotoneClusters (emc = Some ascending when the shaper asks for it)
+   returns normally and preserves the C01 invariant EWF (cursor bounds, clusters monotone in one direction and inside
+   [lo, hi), no output in progress), for EVERY text, item offset / length, direction, script direction, buffer flags,
+   cluster level MonotoneGraphemes / MonotoneCharacters, Unicode data with general categories below 32, cmap, variation
+   sequences, well-founded decomposition, composition function, normalization mode and reorderMarks variant *)
+Theorem default_pipeline_preserves_wf :
+  forall ugc udi umcc uextpict uspace nominal variation sdecomp scomp smode sreorder is_mcm dfuel
+         lo hi horiz text off len0 newcap os emc e0,
+  (forall u, 0 <= ugc u < 32) -> decomp_wf sdecomp dfuel ->
+  EWF lo hi e0 -> idx (eb e0) = 0 -> level (eb e0) = 0 \/ level (eb e0) = 1 ->
+  pre (OAddRunes text off len0 newcap) (eb e0) = true -> op_rng lo hi (OAddRunes text off len0 newcap) = true ->
+  (forall e1 e2, e_add_runes e0 text off len0 newcap = Ok e1 ->
+     pre_gsub ugc udi umcc uextpict uspace nominal variation sdecomp scomp smode sreorder is_mcm dfuel horiz e1 = Ok e2 ->
+     ops_ok lo hi os (eb e2)) ->
+  exists e', default_pipeline ugc udi umcc uextpict uspace nominal variation sdecomp scomp smode sreorder is_mcm dfuel
+               horiz text off len0 newcap os emc e0 = Ok e' /\ EWF lo hi e'.
+Proof. exact default_pipeline_wf. Qed.
+Print Assumptions default_pipeline_preserves_wf.
+
+(* non-vacuity: "a U+0301 ZWNJ b" at MonotoneGraphemes, RTL requested in a natively LTR script, composed-diacritics mode,
+   a font with U+00E1 and no space glyph; the lookups are stood for by a pass that copies every glyph (clearOutput,
+   nextGlyphs, swapBuffers); the shaper asks for ensureMonotoneClusters (descending) *)
+Example default_pipeline_example :
+  let ugc := fun r => if r =? 769 then 12 else if r =? 8204 then 1 else 7 in
+  let udi := fun r => r =? 8204 in
+  let umcc := fun r => if r =? 769 then 230 else 0 in
+  let sdecomp := fun r => if r =? 225 then Some (97, 769) else None in
+  let scomp := fun a b => if (a =? 97) && (b =? 769) then Some 225 else None in
+  let nominal := fun r : Z => (r, negb (r =? 32)) in
+  let e0 := mkE (mkB [] [] 0 false 0 0 0 false false false) [] [] false false false false false false false false 5 0 0 in
+  let os := [OClearOut; ONextN 3; OSwap] in
+  let run := default_pipeline ugc udi umcc (fun _ => false) (fun _ => 0) nominal (fun _ _ => (0, false)) sdecomp scomp 2 0
+               (fun _ => false) 40 4 [97; 769; 8204; 98] 0 4 4 os (Some false) e0 in
+  (forall u, 0 <= ugc u < 32) /\ decomp_wf sdecomp 40 /\ EWF 0 4 e0
+  /\ pre (OAddRunes [97; 769; 8204; 98] 0 4 4) (eb e0) = true /\ op_rng 0 4 (OAddRunes [97; 769; 8204; 98] 0 4 4) = true
+  /\ (forall e1 e2, e_add_runes e0 [97; 769; 8204; 98] 0 4 4 = Ok e1 ->
+        pre_gsub ugc udi umcc (fun _ => false) (fun _ => 0) nominal (fun _ _ => (0, false)) sdecomp scomp 2 0 (fun _ => false) 40 4 e1 = Ok e2 ->
+        ops_ok 0 4 os (eb e2))
+  /\ exists e', run = Ok e' /\ map cp (info (eb e')) = [98; 225] /\ cls (info (eb e')) = [2; 0] /\ dir e' = 4 /\ EWF 0 4 e'.
+Proof.
+  cbv zeta. split.
+  { intros u. destruct (u =? 769); [lia|]. destruct (u =? 8204); lia. }
+  split.
+  { exists (fun u => if u =? 225 then 1%nat else 0%nat). split.
+    - intros ab a b H. destruct (Z.eqb_spec ab 225) as [->|N]; [|discriminate]. inversion H; subst. cbn. lia.
+    - intros u. destruct (u =? 225); lia. }
+  split; [repeat split|]. split; [reflexivity|]. split; [reflexivity|]. split.
+  { intros e1 e2 E1 E2. vm_compute in E1. injection E1 as <-. vm_compute in E2. injection E2 as <-.
+    split; [apply pres_ok_sound; vm_compute; reflexivity|]. split; [apply ops_rng_b; reflexivity|].
+    intros b' E. vm_compute in E. injection E as <-. split; reflexivity. }
+  eexists. split; [vm_compute; reflexivity|]. repeat split.
+Qed.
+
+(* --- part 6: cluster accounting ("nothing lost, nothing invented") of the stages around the lookups ---
+   bkeeps b b' (Proofs/EngineKeep.v): every cluster value of the glyph sequence of b' (output so far ++ unread input) is a
+   cluster value of the glyph sequence of b, and while b' holds a glyph its smallest cluster value is the smallest one of b *)
+
+(* decompose round: the output clusters are the input clusters with their multiplicity changed *)
+Theorem normalize_decompose_round_keeps_clusters :
+  forall ugc udi umcc uspace nominal variation sdecomp dfuel lo hi fuel count might always simple e r,
+  ((level (eb e) =? 2) = false /\ WF lo hi (eb e) = true /\ have_out (eb e) = true) ->
+  count = zlen (info (eb e)) -> idx (eb e) < count -> (Z.to_nat (count - idx (eb e)) <= fuel)%nat ->
+  round1 ugc udi umcc uspace nominal variation sdecomp dfuel fuel count might always simple e = Ok r ->
+  bkeeps (eb e) (eb (fst r)).
+Proof. exact round1_keeps. Qed.
+Print Assumptions normalize_decompose_round_keeps_clusters.
+
+(* reorder round (sort merging the clusters of what it moves over, reorderMarks) and CGJ pass *)
+Theorem normalize_reorder_round_keeps_clusters : forall sreorder is_mcm lo hi fuel count b i b',
+  (level b =? 2) = false -> WF lo hi b = true -> have_out b = false -> count = zlen (info b) -> 0 <= i ->
+  round2 sreorder is_mcm fuel count b i = Ok b' -> bkeeps b b'.
+Proof. exact round2_keeps. Qed.
+Print Assumptions normalize_reorder_round_keeps_clusters.
+
+(* recompose round: mergeOutClusters over starter .. composed mark, then the mark is dropped; its cluster stays on the starter *)
+Theorem normalize_recompose_round_keeps_clusters : forall ugc udi umcc nominal scomp lo hi fuel count starter e e',
+  (level (eb e) =? 2) = false -> WF lo hi (eb e) = true -> have_out (eb e) = true ->
+  count = zlen (info (eb e)) -> 0 <= starter -> starter < zlen (out (eb e)) ->
+  (Z.to_nat (count - idx (eb e)) <= fuel)%nat ->
+  round3 ugc udi umcc nominal scomp fuel count starter e = Ok e' -> bkeeps (eb e) (eb e').
+Proof. exact round3_keeps. Qed.
+Print Assumptions normalize_recompose_round_keeps_clusters.
+
+(* otShapeNormalize as a whole *)
+Theorem ot_shape_normalize_keeps_clusters :
+  forall ugc udi umcc uspace nominal variation sdecomp scomp smode sreorder is_mcm dfuel lo hi e e', EWF lo hi e ->
+  normalize ugc udi umcc uspace nominal variation sdecomp scomp smode sreorder is_mcm dfuel e = Ok e' -> bkeeps (eb e) (eb e').
+Proof. exact normalize_keeps. Qed.
+Print Assumptions ot_shape_normalize_keeps_clusters.
+
+(* setUnicodeProps .. otShapeNormalize *)
+Theorem pre_gsub_keeps_clusters :
+  forall ugc udi umcc uextpict uspace nominal variation sdecomp scomp smode sreorder is_mcm dfuel lo hi horiz e e',
+  (forall u, 0 <= ugc u < 32) -> EWF lo hi e -> idx (eb e) = 0 -> level (eb e) = 0 \/ level (eb e) = 1 ->
+  pre_gsub ugc udi umcc uextpict uspace nominal variation sdecomp scomp smode sreorder is_mcm dfuel horiz e = Ok e' ->
+  bkeeps (eb e) (eb e').
+Proof. exact pre_gsub_keeps. Qed.
+Print Assumptions pre_gsub_keeps_clusters.
+
+(* hence, for EVERY text and item (offset, length; -1 = to the end) added to an empty buffer, after everything that precedes
+   the lookups every cluster is a rune index of the item and, whenever a glyph is there, the smallest cluster is the first
+   rune of the item: with count_clusters_correct, the per-cluster rune counts then sum to the item length *)
+Theorem pre_gsub_accounts_for_the_item :
+  forall ugc udi umcc uextpict uspace nominal variation sdecomp scomp smode sreorder is_mcm dfuel horiz e0 text off len0 newcap e1 e2,
+  let len := add_runes_len text off len0 in
+  (forall u, 0 <= ugc u < 32) ->
+  info (eb e0) = [] -> EWF off (off + len) e0 -> idx (eb e0) = 0 -> level (eb e0) = 0 \/ level (eb e0) = 1 ->
+  pre (OAddRunes text off len0 newcap) (eb e0) = true ->
+  e_add_runes e0 text off len0 newcap = Ok e1 ->
+  pre_gsub ugc udi umcc uextpict uspace nominal variation sdecomp scomp smode sreorder is_mcm dfuel horiz e1 = Ok e2 ->
+  (forall c, In c (cls (info (eb e2))) -> off <= c < off + len)
+  /\ (info (eb e2) <> [] -> lmin (cls (info (eb e2))) = off).
+Proof. exact pre_gsub_accounts. Qed.
+Print Assumptions pre_gsub_accounts_for_the_item.
+
+(* the stages after the lookups *)
+Theorem hide_default_ignorables_bkeeps : forall nominal e e',
+  (level (eb e) =? 2) = false -> have_out (eb e) = false -> idx (eb e) = 0 ->
+  hide_default_ignorables nominal e = Ok e' -> bkeeps (eb e) (eb e').
+Proof. exact hide_default_ignorables_keeps. Qed.
+Print Assumptions hide_default_ignorables_bkeeps.
+
+(* non-vacuity: the item "U+00E1 U+0323 ZWNJ" at offset 1 of "x U+00E1 U+0323 ZWNJ y" (no glyph for U+00E1: it is decomposed and
+   the marks are reordered), RTL in a natively LTR script: clusters 3 1 1 1, the smallest is the item offset *)
+Example pre_gsub_accounts_example :
+  let ugc := fun r => if (r =? 769) || (r =? 803) then 12 else if r =? 8204 then 1 else 7 in
+  let udi := fun r => r =? 8204 in
+  let umcc := fun r => if r =? 769 then 230 else if r =? 803 then 220 else 0 in
+  let sdecomp := fun r => if r =? 225 then Some (97, 769) else None in
+  let nominal := fun r : Z => (r, negb (r =? 225)) in
+  let e0 := mkE (mkB [] [] 0 false 0 0 0 false false false) [] [] false false false false false false false false 5 0 0 in
+  EWF 1 4 e0 /\ pre (OAddRunes [120; 225; 803; 8204; 121] 1 3 3) (eb e0) = true
+  /\ exists e1 e2, e_add_runes e0 [120; 225; 803; 8204; 121] 1 3 3 = Ok e1
+       /\ pre_gsub ugc udi umcc (fun _ => false) (fun _ => 0) nominal (fun _ _ => (0, false)) sdecomp (fun _ _ => None) 2 0 (fun _ => false) 40 4 e1 = Ok e2
+       /\ map cp (info (eb e2)) = [8204; 97; 803; 769] /\ cls (info (eb e2)) = [3; 1; 1; 1] /\ ctx_pre e2 = [120] /\ ctx_post e2 = [121].
+Proof.
+  cbv zeta. split; [repeat split|]. split; [reflexivity|].
+  eexists. eexists. split; [vm_compute; reflexivity|]. split; [vm_compute; reflexivity|]. repeat split.
+Qed.
+
+(* the buffer operations themselves: every modelled operation keeps the relation under its precondition, except the four
+   that cannot (op_safe excludes skipGlyph with output in progress, removeOutput(true), AddRune(s), and replaceGlyphs with
+   an EMPTY replacement; each has a vm_compute counterexample in Proofs/EngineKeepOps.v) *)
+Theorem buffer_op_keeps_clusters : forall lo hi o b b',
+  (level b =? 2) = false -> WF lo hi b = true -> pre o b = true -> op_safe o = true -> run_op o b = Ok b' -> bkeeps b b'.
+Proof. exact op_keeps. Qed.
+Print Assumptions buffer_op_keeps_clusters.
+
+Theorem buffer_ops_keep_clusters : forall lo hi os b b',
+  (level b =? 2) = false -> WF lo hi b = true -> pres_hold os b -> ops_rng lo hi os ->
+  Forall (fun o => op_safe o = true) os -> run_ops os b = Ok b' -> bkeeps b b'.
+Proof. exact run_ops_keeps. Qed.
+Print Assumptions buffer_ops_keep_clusters.
+
+(* THE WHOLE DEFAULT PIPELINE ACCOUNTS FOR EVERY RUNE OF THE ITEM when the lookups are stood for by accounting-safe
+   operations: the result satisfies the invariant, every cluster is a rune index of the item and, whenever at least one
+   glyph is produced, the smallest cluster is the first rune of the item (so, by count_clusters_correct, the per-cluster rune
+   counts sum to the item length) *)
+Theorem default_pipeline_accounts_for_the_item :
+  forall ugc udi umcc uextpict uspace nominal variation sdecomp scomp smode sreorder is_mcm dfuel
+         horiz e0 text off len0 newcap os emc e',
+  let len := add_runes_len text off len0 in
+  (forall u, 0 <= ugc u < 32) ->
+  info (eb e0) = [] -> EWF off (off + len) e0 -> idx (eb e0) = 0 -> level (eb e0) = 0 \/ level (eb e0) = 1 ->
+  pre (OAddRunes text off len0 newcap) (eb e0) = true ->
+  (forall e1 e2, e_add_runes e0 text off len0 newcap = Ok e1 ->
+     pre_gsub ugc udi umcc uextpict uspace nominal variation sdecomp scomp smode sreorder is_mcm dfuel horiz e1 = Ok e2 ->
+     ops_ok off (off + len) os (eb e2)) ->
+  Forall (fun o => op_safe o = true) os ->
+  default_pipeline ugc udi umcc uextpict uspace nominal variation sdecomp scomp smode sreorder is_mcm dfuel
+    horiz text off len0 newcap os emc e0 = Ok e' ->
+  EWF off (off + len) e'
+  /\ (forall c, In c (cls (info (eb e'))) -> off <= c < off + len)
+  /\ (info (eb e') <> [] -> lmin (cls (info (eb e'))) = off).
+Proof. exact default_pipeline_accounts. Qed.
+Print Assumptions default_pipeline_accounts_for_the_item.
+
+(* non-vacuity: the operations of default_pipeline_example are accounting-safe (and a pass with a ligature substitution
+   2 -> 1, a deletion and a multiple substitution 1 -> 2 is too, under its preconditions) *)
+Example accounting_safe_example :
+  Forall (fun o => op_safe o = true) [OClearOut; ONextN 3; OSwap]
+  /\ let b := mkB [mkG 0 fl0 0 65 1; mkG 1 fl0 0 66 2; mkG 2 fl0 0 67 3; mkG 3 fl0 0 68 4] [] 0 false 4 4 0 false false false in
+     let os := [OClearOut; OReplace 2 None (Some [9]); ODelete; OReplace 1 None (Some [7; 8]); OSwap] in
+     Forall (fun o => op_safe o = true) os /\ WF 0 4 b = true /\ pres_hold os b
+     /\ exists b', run_ops os b = Ok b' /\ cls (info b') = [0; 3; 3] /\ bkeeps b b'.
+Proof.
+  split; [repeat constructor|]. cbv zeta.
+  split; [repeat constructor|]. split; [reflexivity|]. split; [apply pres_ok_sound; vm_compute; reflexivity|].
+  eexists. split; [vm_compute; reflexivity|]. split; [reflexivity|].
+  eapply (run_ops_keeps 0 4 [OClearOut; OReplace 2 None (Some [9]); ODelete; OReplace 1 None (Some [7; 8]); OSwap]);
+    [reflexivity|reflexivity|apply pres_ok_sound; vm_compute; reflexivity|apply ops_rng_b; reflexivity|repeat constructor|vm_compute; reflexivity].
 Qed.
 
 (* --- part 3: the recursion budget of the OpenType layout engine (after the F1 fix) --- *)
